@@ -82,7 +82,39 @@ func multiCandidate(p interface{}) bool {
 	return false
 }
 
+// cycleSpec: 2-3 action nodes in a ring of unconditional bindings branches, so
+// that one walk executes every action (and guard) object several times with
+// different bindings each time
+func (g *G) cycleSpec() *ASpec {
+	s := &ASpec{Nodes: map[string]*ANode{}}
+	n := 2 + g.intn(2)
+	names := nodeNames[:n]
+	for i, name := range names {
+		nd := &ANode{HasBranches: true, Type: "bindings"}
+		if g.chance(0.85) {
+			nd.Action = g.act(false)
+			for nd.Action.P.Term == "loop" {
+				nd.Action = g.act(false)
+			}
+		}
+		b := &ABranch{Target: names[(i+1)%n]}
+		if g.chance(0.4) {
+			b.Guard = g.act(true)
+		}
+		nd.Branches = append(nd.Branches, b)
+		if b.Guard != nil {
+			nd.Branches = append(nd.Branches, &ABranch{Target: names[(i+1)%n]})
+		}
+		s.Nodes[name] = nd
+	}
+	s.ErrBranches = g.chance(0.3)
+	return s
+}
+
 func (g *G) aspec(opts map[string]string) *ASpec {
+	if g.mode == "c18" && opts["cycles"] == "1" && g.chance(0.7) {
+		return g.cycleSpec()
+	}
 	s := &ASpec{Nodes: map[string]*ANode{}}
 	n := 1 + g.intn(4)
 	names := nodeNames[:n]
@@ -130,7 +162,7 @@ func (g *G) aspec(opts map[string]string) *ASpec {
 				}
 				if g.chance(0.25) {
 					b.Guard = g.act(true)
-					if b.HasPattern && multiCandidate(b.Pattern) && !g.chance(0.1) {
+					if b.HasPattern && multiCandidate(b.Pattern) && !g.chance(0.5) {
 						ctx := newPctx()
 						ctx.noPreIneq = true
 						if nd.Type == "message" {
@@ -327,6 +359,15 @@ func (g *G) astate(s *ASpec) *AState {
 		}
 		if g.chance(0.15) {
 			st.Bs["t"] = g.pick(names)
+		}
+		if g.chance(0.25) {
+			// nested structure an action can reach into (in-place mutation below the top level)
+			st.Bs[g.pick(bindKeys)] = []interface{}{map[string]interface{}{"q": g.num()}, g.scalar()}
+		}
+		if g.mode == "c18" {
+			for n := 1 + g.intn(2); n > 0; n-- {
+				st.Bs[g.pick(permKeys)] = g.smallJSON()
+			}
 		}
 	}
 	return st
